@@ -147,9 +147,85 @@ def rule_tab(facts):
     return r
 
 
+RANGE = {}
+for _b in (8, 16, 32, 64, 128):
+    RANGE[f"i{_b}"] = (-(1 << (_b - 1)), (1 << (_b - 1)) - 1)
+    RANGE[f"u{_b}"] = (0, (1 << _b) - 1)
+
+
+def _lossy(frm, to):
+    if frm in RANGE and to in RANGE:
+        return not (RANGE[to][0] <= RANGE[frm][0] and RANGE[frm][1] <= RANGE[to][1])
+    if frm in ("f32", "f64", "half::f16") and to in RANGE:
+        return True
+    if frm == "f64" and to in ("f32", "half::f16"):
+        return True
+    return False
+
+
+# (function, construct) -> reason; one named site each
+NARROW_EXEMPT = {
+    ("<glaredb_core::functions::cast::parse::DecimalParser<T> as glaredb_core::functions::cast::parse::Parser>::parse", "i16::Overflow:Sub"):
+        "difference of two i8 values widened to i16 cannot overflow",
+    ("glaredb_core::arrays::scalar::decimal::DecimalType::validate_precision", "u32::Overflow:Add"):
+        "ilog10() of a 64/128-bit integer is at most 38; +1 cannot overflow u32",
+    ("<glaredb_core::functions::cast::parse::Date32Parser as glaredb_core::functions::cast::parse::Parser>::parse", "i32::Overflow:Sub"):
+        "chrono::NaiveDate is limited to ±262143 years, so num_days_from_ce() - EPOCH_DAYS_FROM_CE stays far inside i32",
+    ("<glaredb_core::functions::cast::builtin::to_decimal::DecimalToDecimal<D1, D2> as glaredb_core::functions::cast::CastFunction>::cast::{closure#0}", "i64::Neg"):
+        "negates state.rounding_addition = scale_amount / 2 ≥ 0 (never the minimum value)",
+    ("<glaredb_core::functions::cast::builtin::to_decimal::DecimalToDecimal<D1, D2> as glaredb_core::functions::cast::CastFunction>::cast::{closure#0}", "i128::Neg"):
+        "negates state.rounding_addition = scale_amount / 2 ≥ 0 (never the minimum value)",
+}
+
+
+def rule_narrow(facts):
+    """cast kernels: no lossy `as` / AsPrimitive on values, no raw integer arithmetic (incl. bind-time scale factors)"""
+    from .instwalk import InstDB
+    from . import c12
+    r = RuleResult("C13-NARROW", "cast kernels convert with checked conversions: no lossy `as`, no raw integer arithmetic on values or scale factors", floor=200)
+    db = InstDB(facts)
+    rows = [x for x in facts.records("row", "glaredb_core") if x["ctor"].endswith("RawCastFunction::new")]
+    seen = set()
+    for row in rows:
+        insts = db.reachable(row, within=lambda rec: "glaredb_core::functions::cast::" in rec["id"] or "glaredb_core::arrays::scalar::decimal" in rec["id"])
+        sites = []
+        for rec in insts:
+            r.functions.add(rec["key"])
+            for c, ln, d, ops in c12.kernel_sites(rec):
+                if re.search(r"::(Div|Rem|DivisionByZero|RemainderByZero|Overflow:Div|Overflow:Rem|DivAssign|RemAssign)$", c):
+                    continue     # division by a (positive) scale factor cannot overflow; /0 and MIN/-1 on SQL values are C12's subject
+                ex = NARROW_EXEMPT.get((rec["id"], c))
+                if ex:
+                    r.exempt(f"{rec['id']} {c}", ex)
+                    continue
+                sites.append((rec, c, ln, "raw integer arithmetic: " + d))
+            for blk in rec["bbs"]:
+                for s in blk["s"]:
+                    if s[0] == "a" and s[2][0] == "cast" and s[2][1] in ("IntToInt", "FloatToInt", "FloatToFloat"):
+                        frm, to = s[2][3], s[2][4]
+                        if _lossy(frm, to):
+                            sites.append((rec, f"as:{frm}->{to}", s[3], f"lossy `as` cast {frm} → {to} (wraps / saturates silently)"))
+                t = blk["t"]
+                if t[0] == "call" and "def" in t[1]:
+                    name = t[1].get("res") or t[1]["def"]
+                    m = re.search(r"<(?P<f>[\w:]+) as num_traits::AsPrimitive<(?P<t>[\w:]+)>>::as_$", name)
+                    if m and _lossy(m.group("f"), m.group("t")):
+                        sites.append((rec, f"as_:{m.group('f')}->{m.group('t')}", t[6], f"lossy AsPrimitive::as_ {m.group('f')} → {m.group('t')}"))
+        src = _variant(row["args"][0])
+        r.inst({"row": f"{row['const'].rsplit('::', 1)[-1]}#{row['ord']}", "src": src, "kernel_instances": len(insts), "lossy_or_raw_sites": len(sites)}, not sites)
+        for rec, c, ln, d in sites:
+            key = (rec["id"], c)
+            if key in seen:
+                continue
+            seen.add(key)
+            r.violate(rec["id"], c, f"{d} in a cast kernel (first seen for {row['const'].rsplit('::', 1)[-1]} from {src}): the cast can yield a wrapped / out-of-range "
+                      "value or panic instead of an error", rec["file"], ln)
+    return r
+
+
 def run(ctx):
     facts = ctx["facts"]
-    return [rule_flat(facts), rule_tab(facts)]
+    return [rule_flat(facts), rule_tab(facts), rule_narrow(facts)]
 
 
 CLAIM = {
